@@ -390,6 +390,20 @@ def _handmade_scan(F, R, crates, floor):
             bad = p is not None and p["l"] in tainted
             R.check(not bad, "C15.R6", "%s:%s#%d" % (fkey(b), c.name().split("::")[-1], sorted(x.bb for x in sinks).index(c.bb)), "JSON taken here was not assembled with format!", "%s takes a string assembled with format! as JSON (%s): ids / method names that need escaping produce invalid or different JSON" % (short(b.path), short(c.name())), where(c))
     R.floor("C15.R6", n, floor, "places where a string is taken as wire JSON")
+    # text is declared to be JSON (RawValue::from_string) in a closed list of places, each of which assembles it from
+    # serde_json output and fixed ASCII tokens only (checked by C08 / C20 / C02 rules); anywhere else a RawValue comes from
+    # serde_json::value::to_raw_value. A new hand-assembled envelope (ids / names copied in unescaped) has no such cover.
+    VETTED = (r"^jsonrpsee_core::params::params_builder::ParamsBuilder::build$", r"^jsonrpsee_core::server::method_response::MethodResponse::response$", r"^jsonrpsee_core::server::method_response::BatchResponseBuilder::finish$")
+    m = 0
+    for c in F.all_calls(r"RawValue::from_string$|RawValue::from_string_unchecked$|^std::mem::transmute$"):
+        b = c.body
+        if b.crate not in crates or is_test_body(b):
+            continue
+        if (c.name() or "").endswith("transmute") and not (c.ga and any("RawValue" in g for g in c.ga)):
+            continue
+        m += 1
+        R.check(any(re.search(v, b.path) for v in VETTED), "C15.R6", "from_string-site:%s" % fkey(b), "RawValue::from_string is used by a vetted assembler", "%s declares a hand-assembled string to be JSON (RawValue::from_string): outside the vetted assemblers wire JSON is produced by serde_json, which escapes ids / method names - text copied in verbatim yields invalid JSON or a different id / name" % short(b.path), where(c))
+    R.floor("C15.R6.sites", m, 3 if SERVER in crates else 0, "RawValue::from_string sites")
 
 
 def control_handmade(ctx):
